@@ -18,7 +18,7 @@ git diff > /tmp/mut/rebased-$id.diff
 go build ./... || { echo "RESULT $id: does not build"; cleanup; exit 5; }
 suite=$(go test -vet=off -count=1 ./... 2>&1 | grep -E "^(--- FAIL|FAIL|panic)" | grep -v -E "TestHnswSearchLevel(WithDeletedVertices)?( |$)" | grep -v "^FAIL$" | grep -v "FAIL	github.com/marekgalovic/anndb/index	" )
 echo "suite-with-change non-flaky failures: [$suite]"
-cp $demo/*.go $pkg/ 2>/dev/null
+mkdir -p $pkg; cp $demo/*.go $pkg/ 2>/dev/null
 with=$(go test -vet=off -count=1 -run "$run" "$@" ./$pkg/ 2>&1 | tail -30)
 echo "$with" | grep -qE "^(FAIL|--- FAIL|panic|fatal)" && wf=1 || wf=0
 git checkout -q -- .
